@@ -31,7 +31,7 @@ BOUND = {
     "thorough": "catalogue x 2 decorations + L(5,3); same other dimensions",
 }
 # as-built additions to the bound (kept next to BOUND so that the evidence reports them)
-BOUND = {k: v + "; plus: " + 'numeric / boolean header cells; small decimals as typed cells; several separate blank row / column runs each within the limit (2-3 runs, together beyond it); paths with upper-case / unknown / missing suffix; workbooks with extra sheets (misspelled, underscore-prefixed, unrelated, two at once) in every container' for k, v in BOUND.items()}
+BOUND = {k: v + "; plus: " + 'BytesIO streams positioned at their end or used before; header-less columns in md / csv; numeric header cells; small decimals as typed cells; several separate blank row / column runs each within the limit (2-3 runs, together beyond it); paths with upper-case / unknown / missing suffix; workbooks with extra sheets (misspelled, underscore-prefixed, unrelated, two at once) in every container' for k, v in BOUND.items()}
 
 _TMP = None
 
@@ -117,10 +117,10 @@ def with_headers(wb):
 
 
 FMTS = ["md", "csv", "xls", "xlsx", "xlsm", "xlsx-openpyxl"]
-CHANNELS = {"md": ["str", "bytes", "BytesIO", "file", "path_str", "path_like"],
-            "csv": ["str", "bytes", "BytesIO", "file", "path_str", "path_like"],
-            "xls": ["bytes", "BytesIO", "file", "path_str", "path_like"],
-            "xlsx": ["bytes", "BytesIO", "file", "path_str", "path_like"],
+CHANNELS = {"md": ["str", "bytes", "BytesIO", "BytesIO-at-end", "BytesIO-twice", "file", "path_str", "path_like"],
+            "csv": ["str", "bytes", "BytesIO", "BytesIO-at-end", "BytesIO-twice", "file", "path_str", "path_like"],
+            "xls": ["bytes", "BytesIO", "BytesIO-at-end", "BytesIO-twice", "file", "path_str", "path_like"],
+            "xlsx": ["bytes", "BytesIO", "BytesIO-at-end", "BytesIO-twice", "file", "path_str", "path_like"],
             "xlsm": ["bytes", "path_str"], "xlsx-openpyxl": ["bytes"]}
 
 
@@ -225,6 +225,12 @@ def gen_shape(tier):
             for n in (1, 3):
                 yield {"k": "shape", "fmt": fmt, "sheet": sheet, "what": "trail-rows", "pos": "end", "n": n}
                 yield {"k": "shape", "fmt": fmt, "sheet": sheet, "what": "trail-cols", "pos": "end", "n": n}
+    # columns without a header inside the data, in the text containers as well (a spacer / remarks column)
+    for fmt in ("md", "csv"):
+        for sheet in ("survey", "choices"):
+            for pos in ("after-header", "middle", "before-last"):
+                for n in (1, 3):
+                    yield {"k": "shape", "fmt": fmt, "sheet": sheet, "what": "cols", "pos": pos, "n": n}
     for fmt in ("xls", "xlsx", "md", "csv"):
         for case_kind in ("title", "upper"):
             yield {"k": "sheetcase", "fmt": fmt, "case": case_kind}
@@ -258,6 +264,19 @@ def deliver(src, fmt, ch, explicit, stem="stemX", suffix=None):
         return data, kw, None
     if ch == "BytesIO":
         return io.BytesIO(data), kw, None
+    if ch == "BytesIO-at-end":
+        # as left behind by a writer (Workbook.save(stream), buf.write(..)): the content is what counts, not the position
+        b = io.BytesIO()
+        b.write(data)
+        return b, kw, None
+    if ch == "BytesIO-twice":
+        # the same stream object handed to convert() a second time
+        b = io.BytesIO(data)
+        try:
+            run_convert(b, **kw)
+        except Exception:  # noqa: BLE001
+            pass
+        return b, kw, None
     p = os.path.join(tmpdir(), f"{stem}.{fmt}" if suffix is None else f"{stem}{suffix}")
     with open(p, "wb") as f:
         f.write(data)
@@ -409,7 +428,12 @@ def check_one(case):
                 row[at:at] = [None] * n
             if what == "cols" and n > 20:
                 expect_same = False
-        src, _ = render.render(wb, case["fmt"], tabs)
+        if case["fmt"] in ("md", "csv"):
+            from props.C17 import _tables_to_text
+
+            src, _ = _tables_to_text({s_: tabs[s_] for s_ in render.sheet_names(wb)}, case["fmt"])
+        else:
+            src, _ = render.render(wb, case["fmt"], tabs)
         ref_wb = with_headers(ref)
         arg, kw, cleanup = deliver(src, case["fmt"], "bytes", True)
         sig = f"shape:{case['fmt']}:{what}:{n if isinstance(n, int) else '+'.join(map(str, n))}:{case['pos']}:{s}"
